@@ -12,7 +12,8 @@ import time
 
 from common import Inconclusive, add_violations_from_bad, finish, log
 
-KINDS = ["honest", "otherHash", "replay", "garbage", "offcurve", "badRand", "emptyRand", "swapped", "shiftRandom", "shiftSmall", "nonMember"]
+KINDS = ["honest", "otherHash", "replay", "garbage", "offcurve", "badRand", "emptyRand", "swapped", "shiftRandom", "shiftSmall",
+         "selfGarbage", "selfOther", "selfSender", "announce", "announceOther", "underOtherKey", "nonMember"]
 PARTY_TYPES = ["cast", "verify", "own", "wrongBlock", "forged", "timeout"]
 MAX_JVMS = 3
 
@@ -50,19 +51,21 @@ def parse(raw):
     return json.loads(raw.strip()[1:-1].replace('\\"', '"'))
 
 
-def gen_histories(ctx, byz, depth):
+def gen_histories(ctx, byz, depth, focus="shares"):
     cfg = """SPECIFICATION GenSpec
 CONSTANTS
   NMem = 4
   KThr = 3
   Byz = {%s}
-  MaxByz = 2
+  MaxByz = %d
   MaxDup = 1
+  MaxLen = %d
+  Focus = "%s"
   AsCoded = FALSE
   Depth = %d
 INVARIANTS GenInv Dump
 CHECK_DEADLOCK FALSE
-""" % (", ".join(str(b) for b in byz), depth)
+""" % (", ".join(str(b) for b in byz), 3 if focus == "keys" else 2, depth, focus, depth)
     res = ctx.tlc("SignRoundGen", cfg_text=cfg, timeout=1500)
     hs = [parse(raw) for raw in ctx.tlc_lines(res, "HIST")]
     if not hs:
@@ -114,7 +117,7 @@ def forged_first(h):
             continue
         for j in range(i + 1, len(seq)):
             v = seq[j]
-            if v["type"] == "verify" and v["filed"] == m["filed"] and v["sender"] == m["sender"]:
+            if v["type"] in ("verify", "own") and v["filed"] == m["filed"] and v["sender"] == m["sender"]:
                 if any(c["type"] == "cast" and c["filed"] == m["filed"] for c in seq[j + 1:]) and \
                         not any(c["type"] == "cast" and c["filed"] == m["filed"] for c in seq[:j]):
                     return h["nadd"] >= 1
@@ -128,7 +131,9 @@ def choose_party(rnd, short, deep, n_short, n_deep, n_two, n_timeout, n_forged):
     rnd.shuffle(deep)
     out = [h for h in short if not has_timeout(h)][:n_short]
     deep_nt = [h for h in deep if not has_timeout(h)]
-    out += [h for h in short + deep_nt if not has_timeout(h) and forged_first(h)][:n_forged]
+    ff = [h for h in short + deep_nt if not has_timeout(h) and forged_first(h)]
+    own_ff = [h for h in ff if any(m["type"] == "forged" and m["sender"] == 1 for m in h["h"])]
+    out += own_ff[:n_forged // 2] + [h for h in ff if h not in own_ff[:n_forged // 2]][:n_forged - min(len(own_ff), n_forged // 2)]
     out += [h for h in deep_nt if h["nadd"] >= 2][:n_two]
     out += [h for h in deep_nt if h["nadd"] < 2][:n_deep]
     tos = [h for h in short if has_timeout(h)][:n_timeout // 2] + [h for h in deep if has_timeout(h)][:n_timeout - n_timeout // 2]
@@ -156,19 +161,36 @@ def run(ctx):
     jobs = [
         lambda: ctx.tlc("SignRound", cfg="SignRound.cfg" if quick else "SignRound_wide.cfg", coverage=not quick, timeout=1500),
         lambda: gen_histories(ctx, [4], 5),
-        lambda: ctx.tlc("SignParty", cfg="SignParty.cfg", coverage=not quick, timeout=1500),
+        lambda: gen_histories(ctx, [4], 6, focus="keys"),
+        lambda: ctx.tlc("SignRound", cfg="SignRound_keys.cfg", timeout=1500),
+        lambda: ctx.tlc("SignRound", cfg="SignRound_keys_ascoded.cfg", allow_violation=True),
+        lambda: ctx.tlc("SignParty", cfg="SignParty.cfg" if quick else "SignParty_wide.cfg", coverage=not quick, timeout=1500),
         lambda: gen_party(ctx, 4 if quick else 5),
         lambda: gen_party(ctx, 9, simulate=150 if quick else 2500, depth=10),
         lambda: ctx.tlc("SignParty", cfg="SignParty_slot.cfg", allow_violation=True),
     ]
-    for inv in ("OnlyValidShares", "ThresholdImpliesValidGroupSig", "OneFaultTolerated"):
+    asc_invs = () if quick else ("OnlyValidShares", "ThresholdImpliesValidGroupSig", "OneFaultTolerated")
+    for inv in asc_invs:
         jobs.append(lambda inv=inv: ctx.tlc("SignRound", cfg="SignRound_ascoded_%s.cfg" % inv, allow_violation=True))
     res = overlapped(jobs)
-    ref, (gen, hists), pref, (pgen, pshort), (psim, pdeep), pslot = res[:6]
-    ascoded = {inv: bool(r["error"]) for inv, r in zip(("OnlyValidShares", "ThresholdImpliesValidGroupSig", "OneFaultTolerated"), res[6:])}
+    ref, (gen, hists), (kgen, khists), kref, kasc, pref, (pgen, pshort), (psim, pdeep), pslot = res[:9]
+    ascoded = {inv: bool(r["error"]) for inv, r in zip(asc_invs, res[9:])}
+    ascoded["KeyTableGenuine (first announcer wins)"] = bool(kasc["error"])
     # 2. TLC-generated message sequences (C15) and handler-call sequences (extension)
     rnd.shuffle(hists)
-    chosen = hists[:1600 if quick else 60000]
+    rnd.shuffle(khists)
+    # key-table sequences: always some in which another key is announced for the late member before its own
+    def impersonator_first(h):
+        for m in h:
+            if m["kind"] == "announce":
+                return False
+            if m["kind"] == "announceOther" and m["sender"] == 2:
+                return True
+        return False
+    kfirst = [h for h in khists if impersonator_first(h)]
+    krest = [h for h in khists if not impersonator_first(h)]
+    chosen = hists[:1400 if quick else 60000] + kfirst[:100 if quick else 8000] + krest[:200 if quick else 16000]
+    rnd.shuffle(chosen)
     if quick:
         pchosen, ptimeouts = choose_party(rnd, pshort, pdeep, 150, 60, 12, 8, 24)
     else:
@@ -241,20 +263,21 @@ def run(ctx):
                     if e["event"] == "Call" and e["m"]["type"] not in [s["m"]["type"] for s in psamples]:
                         psamples.append(e)
     coverage = {
-        "states": ref["distinct"] + gen["distinct"],
-        "transitions": ref["generated"] + gen["generated"],
+        "states": ref["distinct"] + gen["distinct"] + kref["distinct"] + kgen["distinct"],
+        "transitions": ref["generated"] + gen["generated"] + kref["generated"] + kgen["generated"],
+        "key_table_sequences_generated": len(khists),
         "traces_validated_against_impl": counts["histories"],
         "events_validated": total,
         "real_update_calls": counts["messages"],
         "sequences_through_wire_codec": counts["wire"],
         "sequences_reaching_recovery": counts["recovered"],
         "messages_by_kind": {k: counts[k] for k in KINDS},
-        "tlc_generated_sequences": len(hists),
+        "tlc_generated_sequences": len(hists) + len(khists),
         "sequences_replayed": len(chosen),
         "as_coded_model_violates": ascoded,
         "samples": samples,
         "action_coverage": ref["coverage"],
-        "exhaustive": len(chosen) == len(hists),
+        "exhaustive": len(chosen) == len(hists) + len(khists),
         "extension_party": {
             "model_states": pref["distinct"] + pgen["distinct"],
             "model_transitions": pref["generated"] + pgen["generated"],
